@@ -301,6 +301,8 @@ define(void)
 	m->nparam = params.len / sizeof(m->param[0]);
 
 	/* read macro body */
+	if (t->kind == TIDENT && strcmp(t->lit, "__VA_ARGS__") == 0 && !macrovarargs(m))
+		error(&t->loc, "__VA_ARGS__ can only be used in variadic function-like macros");
 	i = macroparam(m, t);
 	while (t->kind != TNEWLINE && t->kind != TEOF) {
 		if (t->kind == THASHHASH)
